@@ -54,9 +54,36 @@ def _check_encode(t: Tally, v: dict, data: bytes, reframed=True):
         problems.append(f"accessor-raised:{type(e).__name__}")
         acc = None
     if reframed and not problems:
-        items, end = pull(pk.ccsds_generator(bytes(p)), horizon=3)
+        import io
+        # the constructed packet goes back through the framer as a plain bytes copy, as the object itself, and as a fresh in-memory file
+        rot = t.evals % 4
+        src = (bytes(p), p, io.BytesIO(bytes(p)), io.BytesIO(p))[rot]
+        items, end = pull(pk.ccsds_generator(src), horizon=3)
         if end != "stop" or len(items) != 1 or bytes(items[0]) != want:
-            problems.append("reframe")
+            problems.append("reframe" if rot == 0 else f"reframe-via-{('bytes', 'packet-object', 'BytesIO', 'BytesIO-of-object')[rot]}")
+        if t.evals % 32 == 5 and not problems:
+            # a file-like source that was written to / peeked at before framing: an in-memory file and a real file must be treated alike
+            import os
+            from mc import VERIF_ROOT
+            path = os.path.join(VERIF_ROOT, ".work", f"c13_{os.getpid()}.bin")
+            os.makedirs(os.path.dirname(path), exist_ok=True)
+            obs = []
+            for pos in (6, len(want)):
+                mem = io.BytesIO()
+                mem.write(want)
+                mem.seek(pos)
+                a = pull(pk.ccsds_generator(mem), horizon=3)
+                with open(path, "w+b") as f:
+                    f.write(want)
+                    f.flush()
+                    f.seek(pos)
+                    b = pull(pk.ccsds_generator(f), horizon=3)
+                if ([bytes(i) for i in a[0]], a[1]) != ([bytes(i) for i in b[0]], b[1]):
+                    problems.append(f"reframe: BytesIO and real file at position {pos} framed differently")
+                    break
+            os.unlink(path)
+        if problems:
+            pass
         else:
             q = items[0]
             if tuple(q.header_values) != tuple(v[f] for f in FIELDS) + (len(data) - 1,):
@@ -296,8 +323,13 @@ def replay(case):
                     return viol
             return None
         if _in_range(v, n):
-            _check_encode(t, v, bytes(n))
-            return t.violations[0] if t.violations else None
+            for pre in range(5):  # every source rotation of the re-framing step, and the positioned-file differential (evals % 32 == 5)
+                t = Tally()
+                t.evals = pre
+                _check_encode(t, v, bytes(n))
+                if t.violations:
+                    return t.violations[0]
+            return None
         try:
             pk.create_ccsds_packet(bytes(n), **v)
             return {"sig": {"kind": "rejection-missing"}, "case": case}
